@@ -333,7 +333,7 @@ func main() {
 	for _, cmd := range []uint32{1, 2, 7, 0, 3} {
 		for _, cnt := range []uint32{0, 1, 2, 1 << 20, 1 << 24, 1 << 28, 1<<29 - 1} {
 			w := cnt<<3 | cmd
-			geoms = append(geoms, []uint32{w}, []uint32{w, 2, 2}, []uint32{w, 2, 2, 18, 2, 2}, []uint32{9, 2, 2, w, 2, 2}, []uint32{9, 2, 2, 10, 2, 2, w})
+			geoms = append(geoms, []uint32{w}, []uint32{w, 2}, []uint32{w, 2, 2}, []uint32{w, 2, 2, 2}, []uint32{w, 2, 2, 18, 2, 2}, []uint32{9, 2, 2, w, 2, 2}, []uint32{9, 2, 2, w, 2}, []uint32{9, 2, 2, 10, 2, 2, w})
 		}
 	}
 	baseGeoms := 9
@@ -401,7 +401,7 @@ func main() {
 		accepted(c, decodeMVT(c, b))
 	})
 
-	r.ExploreSharded("mvt-geometry-commands", fmt.Sprintf("%d geometry command streams (every command id 0,1,2,3,7 x counts {0,1,2,2^20,2^24,2^28,2^29-1} as the first, second or last command word, with and without parameters) x geometry type 0..4 x every truncation of the tile", len(geoms)-baseGeoms), mc.Opts{MaxDev: -1}, 16, func(c *mc.Ctx) {
+	r.ExploreSharded("mvt-geometry-commands", fmt.Sprintf("%d geometry command streams (every command id 0,1,2,3,7 x counts {0,1,2,2^20,2^24,2^28,2^29-1} as the first, second or last command word, followed by 0, 1, 2 or 3 parameter words) x geometry type 0..4 x every truncation of the tile", len(geoms)-baseGeoms), mc.Opts{MaxDev: -1}, 16, func(c *mc.Ctx) {
 		gi := baseGeoms + c.Choose(len(geoms)-baseGeoms)
 		if !r.Owned(c, gi) {
 			return
